@@ -381,6 +381,16 @@ func init() {
 				out += "\trrt=err"
 			} else {
 				out += "\trrt=" + cmpBack(tn, v, rp.Elem())
+				// both texts read by the same decoder: do they denote the same value?  (what remains to be
+				// said when the original holds ill-formed UTF-8, which no text can carry byte for byte)
+				if serr == nil {
+					xp := reflect.New(t)
+					if err := json.Unmarshal(sb, xp.Interface()); err != nil {
+						out += "\trtx=err"
+					} else {
+						out += "\trtx=" + cmpBack(tn, rp.Elem(), xp.Elem())
+					}
+				}
 			}
 		}
 		return out
